@@ -6,7 +6,7 @@ EXTENDS ProxiedCircuit, Json
 CONSTANTS Depth, SampleOneIn
 VARIABLE hist
 St == [epSent |-> epSent, epRel |-> epRel, epDropped |-> epDropped, inj |-> inj, base |-> base,
-       delivered |-> delivered, pending |-> pending, done |-> done]
+       delivered |-> delivered, pending |-> pending, done |-> done, quiet |-> quiet]
 Full == [st |-> St, g |-> [fwdMap |-> fwdMap, ackedWire |-> ackedWire, shown |-> shown]]
 ObsNext == [out |-> out', pending |-> pending', done |-> done']
 Labelled(E(_)) ==
